@@ -223,3 +223,18 @@ func TrimmedCSVCanonicalSeq(s string) iter.Seq[string] {
 		}
 	}
 }
+
+// StripNoCacheFields removes the header fields named by a qualified no-cache
+// directive (RFC 9111 §5.2.2.4) from a stored response that is about to be
+// served without successful validation.
+func StripNoCacheFields(header http.Header) {
+	fields, present := ParseCCResponseDirectives(header).NoCache()
+	if !present {
+		return
+	}
+	if seq, qualified := fields.Value(); qualified {
+		for field := range seq {
+			header.Del(field)
+		}
+	}
+}
